@@ -17,7 +17,8 @@ SPEC = dict(
                "processes (8 MiB stack, 1 GiB address space, 5 s CPU watchdog): a dead worker is attributed to the journaled case. CLI jobs run through "
                "__verif-batch workers started under `ulimit -v` with a per-job CPU watchdog; a slice is re-run as real processes (byte-identical) and every "
                "crash candidate is re-run as a real process. Allocation requests below 2^46 bytes that fail only because of the limit, and watchdog hits, "
-               "are 'undecided' and listed, never a verdict. Thorough: 4-token programs through the CLI run under a wall budget (library half covers all).",
+               "are 'undecided' and listed, never a verdict. The CLI half stays at <=3 program tokens in both tiers (every CLI crash candidate costs a real process; the library half runs all 62^4 four-token "
+               "programs under three evaluators).",
     assumptions=["operands outside the 15-value set and programs outside the templates / token alphabet are out of scope",
                  "a request for >= 2^46 bytes is 'impossibly large' (exceeds the x86-64 user address space); 2^27..2^46 is 'legitimately large' and excluded",
                  "a stack overflow is judged on an 8 MiB stack (the main-thread default)"],
